@@ -181,7 +181,7 @@ func checkLocation(o drv.Outcome, files map[string]string, rootName string) (str
 			}
 			prev := filepath.Base(entries[k-1][0])
 			l := src[n-1]
-			if !strings.Contains(l, "INCLUDE") || !strings.Contains(l, prev) {
+			if !includeLineNames(src, n-1, prev) {
 				// the pattern pinned by the repository's own fixture err_33_macro_override: the line is that
 				// of an earlier INCLUDE in the same including file, the right INCLUDE stands further down
 				if strings.Contains(l, "INCLUDE") {
@@ -293,6 +293,12 @@ func runC02(c *fw.Ctx) {
 			m := map[string]string{"root.jst": "JSIGHT 0.3\n\nINCLUDE a.jst\n" + good(0), "a.jst": good(1) + "\nINCLUDE b.jst\n", "b.jst": good(2)}
 			return withFault(m, []string{"root.jst", "a.jst", "b.jst"}, fi, f)
 		}, 3},
+		{"comment-spanning-includes", func(fi int, f string) map[string]string {
+			// a block comment of several lines between the keyword and the file name: the INCLUDE is
+			// on the line of its keyword
+			m := map[string]string{"root.jst": "JSIGHT 0.3\n\nINCLUDE ###\n note\n### a.jst\n" + good(0), "a.jst": good(1) + "\nINCLUDE ### x\n### b.jst\n", "b.jst": good(2)}
+			return withFault(m, []string{"root.jst", "a.jst", "b.jst"}, fi, f)
+		}, 3},
 		{"chain3-subdirs", func(fi int, f string) map[string]string {
 			m := map[string]string{"root.jst": "JSIGHT 0.3\nINCLUDE d1/a.jst\n", "d1/a.jst": good(1) + "INCLUDE d2/b.jst\n", "d1/d2/b.jst": "\n\nINCLUDE c.jst\n" + good(2), "d1/d2/c.jst": good(3)}
 			return withFault(m, []string{"root.jst", "d1/a.jst", "d1/d2/b.jst", "d1/d2/c.jst"}, fi, f)
@@ -358,6 +364,28 @@ func runC02(c *fw.Ctx) {
 		}
 	}
 }
+
+// includeLineNames: line i of src starts an INCLUDE directive whose file name is prev. The name
+// stands on the keyword's line, or - after a block comment of several lines - on the line the
+// comment ends on.
+func includeLineNames(src []string, i int, prev string) bool {
+	if !strings.Contains(src[i], "INCLUDE") {
+		return false
+	}
+	j := i + 8
+	if j > len(src) {
+		j = len(src)
+	}
+	t := strings.Join(src[i:j], "\n")
+	t = t[strings.Index(t, "INCLUDE"):]
+	t = blockComment.ReplaceAllString(t, " ")
+	if k := strings.IndexByte(t, '\n'); k >= 0 {
+		t = t[:k]
+	}
+	return strings.Contains(t, prev)
+}
+
+var blockComment = regexp.MustCompile(`###[\s\S]*?###`)
 
 func withFault(m map[string]string, order []string, fi int, fault string) map[string]string {
 	m[order[fi]] += fault
